@@ -1,6 +1,8 @@
 import Spine.StoreF
 import Spine.C02Refine
 import Spine.C02Idem
+import Spine.HashKey
+import Spine.SortGen
 import Spine.Store
 import Spine.Generated.Shapes
 import Spine.Generated.Wiring
@@ -8,7 +10,7 @@ import Spine.Generated.Wiring
 # C02 — replicated function data follows the SPINE restricted-exchange update rules
 
 Property theorems only. Lemmas: `Spine/UpdateThm.lean`, `SortThm.lean`, `C02Thm.lean`, `SelectThm.lean`,
-`C02Refine.lean`, `C02Idem.lean`. SPEC: `Spine/SpecKV.lean` — data as a map identifier → item, the cmdOption
+`C02Refine.lean`, `C02Idem.lean`, `HashKey.lean`, `SortGen.lean`. SPEC: `Spine/SpecKV.lean` — data as a map identifier → item, the cmdOption
 rules as overlay / restrict / erase. Tables regenerated from the tree under test on every run:
 `Spine/Generated/Shapes.lean` (G3), `Spine/Generated/Wiring.lean` (G4); row predicates in `Spine/C02Tables.lean`.
 
@@ -70,6 +72,20 @@ rules as overlay / restrict / erase. Tables regenerated from the tree under test
   method outside the generated list `wiringFailing` (empty on HEAD, three rows on the pinned commit) reads, passes
   and assigns one list field, persists only under `success && persist` and returns the data; `wiringFailing` is
   exactly the set of rows that do not.
+
+* **Identity of items as the code computes it** (`hashKey` builds a STRING; `Spine/HashKey.lean` models the string,
+  characters and all): `c02_hashkey_numeric` (numeric identifiers of any arity, complete or not: same hash text iff
+  same present prefix), `c02_hashkey_numeric_injective`, `c02_hashkey_number_string_injective` (all strings, empty /
+  with separator / absent), `c02_hashkey_address_injective` (device, entity, feature addresses, any device
+  string, up to absent vs empty device part); `c02_hashkey_model_is_present_prefix`, `c02_hashkey_abstraction_sound`
+  (the abstract `Spine.hashKey` every other theorem uses identifies exactly what the string identifies);
+  `c02_key_kinds`, `c02_struct_key_types` (over the regenerated table: only these kinds occur). So `hashKey` is
+  INJECTIVE on complete, non-degenerate identifiers of every list type. The collisions that exist are
+  `c02_hashkey_collisions` (incomplete identifiers with one present prefix; absent vs empty device part) and,
+  for a kind that does not occur, `c02_hashkey_string_first_would_collide`; `c02_partial_identifier_collision`
+  shows what an incomplete identifier in the data does to `Merge`.
+* **`SortData` on arbitrary items**: `c02_sortdata_all_inputs` (permutation, no item less than its left
+  neighbour, idempotent, comparator asymmetric — for ALL lists); `c02_comparator_not_weak_order_with_missing_parts`.
 
 ## Refuted (kernel-checked witnesses)
 
@@ -437,6 +453,145 @@ example : (match updateList ex3Shape false
       | .ok r => r.out.map (keyOf ex3Shape) | .panic _ => []) = [[0, 0, 2], [0, 1, 0], [0, 1, 1], [1, 0, 0]] := by
   decide
 
+/-! ## the identity of items as the code computes it (`hashKey`, a string) -/
+
+/-- **Numeric identifiers (1, 2, 3 … parts), complete or not**: the hash TEXT the code builds — decimal texts of
+    the parts joined with `|`, stopping at the first absent part — is equal for two identifiers if and only if the
+    parts before the first absent one are equal. So complete identifiers are told apart for all values
+    (`12|3` / `1|23`, the largest uint), and an incomplete identifier is identified with every identifier that has
+    the same present prefix. -/
+theorem c02_hashkey_numeric (xs ys : List (Option Nat)) :
+    HashKey.hashText (HashKey.uints xs) = HashKey.hashText (HashKey.uints ys) ↔
+      HashKey.presentPrefix xs = HashKey.presentPrefix ys :=
+  HashKey.hashText_uints_inj xs ys
+
+/-- complete numeric identifiers: `hashKey` is injective -/
+theorem c02_hashkey_numeric_injective (ns ms : List Nat)
+    (h : HashKey.hashText (HashKey.uints (ns.map some)) = HashKey.hashText (HashKey.uints (ms.map some))) : ns = ms :=
+  HashKey.hashText_complete_uints_inj ns ms h
+
+/-- … and that is exactly what the abstract model (`Spine.hashKey`, used by every other theorem) computes: for a
+    shape with numeric identifier fields only, the abstract hash is the present prefix of the item's key parts — so
+    two items have the same hash TEXT iff they have the same abstract hash, complete identifiers or not. -/
+theorem c02_hashkey_model_is_present_prefix (sh : Shape) (hu : ∀ k ∈ sh.keys, k.2 = .uint) (it : Item) :
+    hashKey sh it = HashKey.presentPrefix (sh.keys.map fun k => it.get k.1) := by
+  unfold hashKey
+  generalize sh.keys = ks at hu
+  induction ks with
+  | nil => rfl
+  | cons k ks ih =>
+    obtain ⟨i, kind⟩ := k
+    have hk : kind = .uint := hu (i, kind) List.mem_cons_self
+    subst hk
+    have ih' := ih (fun k hk => hu k (List.mem_cons_of_mem _ hk))
+    simp only [hashKey.go, List.map_cons]
+    cases it.get i with
+    | none => rfl
+    | some v => simp [HashKey.presentPrefix, ih']
+
+theorem c02_hashkey_abstraction_sound (sh : Shape) (hu : ∀ k ∈ sh.keys, k.2 = .uint) (a b : Item) :
+    HashKey.hashText (HashKey.uints (sh.keys.map fun k => a.get k.1)) =
+      HashKey.hashText (HashKey.uints (sh.keys.map fun k => b.get k.1)) ↔ hashKey sh a = hashKey sh b := by
+  rw [c02_hashkey_numeric, c02_hashkey_model_is_present_prefix sh hu a, c02_hashkey_model_is_present_prefix sh hu b]
+
+/-- **Number + string identifier** (measurementId + valueType): injective for ALL strings — empty, containing the
+    separator, looking like numbers — and an absent string part is told from an empty one. -/
+theorem c02_hashkey_number_string_injective (a b : Nat) (s t : Option (List Nat))
+    (h : HashKey.hashText [some (.uint a), s.map HashKey.Part.str] =
+         HashKey.hashText [some (.uint b), t.map HashKey.Part.str]) : a = b ∧ s = t :=
+  HashKey.hashText_uint_str_inj a b s t h
+
+/-- **Address identifiers** (device / entity / feature description lists): the hash text is the address text, and
+    the address texts `device`, `device:[e,…]:`, `device:[e,…]:feature` identify device string, entity list and
+    feature — for device strings containing any character — up to an absent vs empty device part. -/
+theorem c02_hashkey_address_injective (d d' : Option (List Nat)) (e e' : List Nat) (f f' : Option Nat) :
+    (HashKey.hashText [some (.struct (HashKey.featText d e f))] = HashKey.hashText [some (.struct (HashKey.featText d' e' f'))] →
+      HashKey.devText d = HashKey.devText d' ∧ e = e' ∧ f = f') ∧
+    (HashKey.hashText [some (.struct (HashKey.entText d e))] = HashKey.hashText [some (.struct (HashKey.entText d' e'))] →
+      HashKey.devText d = HashKey.devText d' ∧ e = e') ∧
+    (HashKey.hashText [some (.struct (HashKey.devText d))] = HashKey.hashText [some (.struct (HashKey.devText d'))] →
+      HashKey.devText d = HashKey.devText d') := by
+  refine ⟨fun h => ?_, fun h => ?_, fun h => ?_⟩
+  · have h1 := HashKey.hashText_struct (some (HashKey.featText d e f))
+    have h2 := HashKey.hashText_struct (some (HashKey.featText d' e' f'))
+    simp only [Option.map_some, Option.getD_some] at h1 h2
+    rw [h1, h2] at h
+    exact HashKey.featText_inj d d' e e' f f' h
+  · have h1 := HashKey.hashText_struct (some (HashKey.entText d e))
+    have h2 := HashKey.hashText_struct (some (HashKey.entText d' e'))
+    simp only [Option.map_some, Option.getD_some] at h1 h2
+    rw [h1, h2] at h
+    exact HashKey.entText_inj d d' e e' h
+  · have h1 := HashKey.hashText_struct (some (HashKey.devText d))
+    have h2 := HashKey.hashText_struct (some (HashKey.devText d'))
+    simp only [Option.map_some, Option.getD_some] at h1 h2
+    rw [h1, h2] at h
+    exact h
+
+/-- COLLISIONS that exist (kernel-checked; replayed on the real code by `updIdentityProbes`): incomplete
+    identifiers with the same present prefix — `(1,-,3)` / `(1,-,4)`, and every identifier without its first part —
+    and the degenerate address with an absent vs empty device part, which also collides with "no address".
+    None involves a complete, non-degenerate identifier. -/
+theorem c02_hashkey_collisions :
+    HashKey.hashText (HashKey.uints [some 1, none, some 3]) = HashKey.hashText (HashKey.uints [some 1, none, some 4]) ∧
+    HashKey.hashText (HashKey.uints [none, some 2, some 3]) = HashKey.hashText (HashKey.uints [none, some 5, some 6]) ∧
+    HashKey.hashText [some (.struct (HashKey.devText none))] = HashKey.hashText [some (.struct (HashKey.devText (some [])))] ∧
+    HashKey.hashText [some (.struct (HashKey.devText none))] = HashKey.hashText [none] :=
+  ⟨HashKey.collision_incomplete_same_prefix.1, HashKey.collision_incomplete_same_prefix.2.1,
+   HashKey.collision_empty_device.1, HashKey.collision_empty_device.2⟩
+
+/-- a kind of identifier that would NOT be injective — a string part before another part — does not occur:
+    `c02_key_kinds` below decides that over the regenerated table -/
+theorem c02_hashkey_string_first_would_collide :
+    HashKey.hashText [some (.str [97, 124, 98]), some (.str [99])] =
+      HashKey.hashText [some (.str [97]), some (.str [98, 124, 99])] ∧
+    HashKey.hashText [some (.str []), some (.uint 1)] = HashKey.hashText [some (.uint 1)] :=
+  HashKey.collision_string_before_another_part
+
+/-- **Incomplete identifiers in the data** (what "at most one item per identifier" does NOT cover): the stored item
+    `(1,-,3)` and the incoming `(1,-,2)` (second item of a partial update, so the merge path is taken) have the same
+    hash; the update overwrites the stored item — its third key part included — instead of adding an item. The
+    model and the real code agree on this (corpus of `TestUpdate`); the SPEC does not decide such inputs
+    (`notDecided` = stored-data-not-well-formed). -/
+theorem c02_partial_identifier_collision :
+    (match updateList ex3Shape false [[some 1, none, some 3, none, none, some 0, none]]
+        [[some 2, some 2, some 2, none, none, none, none], [some 1, none, some 2, none, none, some 1, none]] none none with
+     | .ok r => r.out | .panic _ => []) =
+      [[some 1, none, some 2, none, none, some 1, none], [some 2, some 2, some 2, none, none, none, none]] ∧
+    (notDecided ex3Shape [[some 1, none, some 3, none, none, some 0, none]]
+        [[some 2, some 2, some 2, none, none, none, none], [some 1, none, some 2, none, none, some 1, none]] none none).isSome = true := by
+  decide
+
+/-! ## `SortData` on arbitrary items -/
+
+/-- **For ALL lists** — items with missing identifier parts, string or address parts included — `SortData` returns
+    a permutation in which no item is less than its left neighbour, and sorting again changes nothing; the
+    comparator is asymmetric for all items. (With complete numeric identifiers more holds: `c02_sorted_multikey`,
+    `c02_comparator_strict_weak_order`.) -/
+theorem c02_sortdata_all_inputs (sh : Shape) (l : List Item) :
+    (sortData sh l).Perm l ∧ Adj sh (sortData sh l) ∧ sortData sh (sortData sh l) = sortData sh l ∧
+    ∀ a b, less sh a b = true → less sh b a = false :=
+  ⟨sortData_perm sh l, sortData_adj sh l, sortData_idem sh l, less_asymm_all sh⟩
+
+/-- WITNESS: with a missing identifier part the comparator is not a weak order — `1` is not less than the item
+    without identifier, that item is not less than `0`, yet `0` is less than `1` — and the output of `SortData`
+    is not pairwise ordered: `[1, -, 0]` stays as it is. (Only the neighbour property and idempotence above
+    survive; for more than 12 items Go's sort is free to return another permutation.) -/
+theorem c02_comparator_not_weak_order_with_missing_parts :
+    less exShape [none, none, none, none, none] [some 1, none, none, none, none] = false ∧
+    less exShape [some 0, none, none, none, none] [none, none, none, none, none] = false ∧
+    less exShape [some 0, none, none, none, none] [some 1, none, none, none, none] = true ∧
+    sortData exShape [[some 1, none, none, none, none], [none, none, none, none, none], [some 0, none, none, none, none]] =
+      [[some 1, none, none, none, none], [none, none, none, none, none], [some 0, none, none, none, none]] := by
+  decide
+
+/-- number + string identifiers (measurement lists): the comparator orders by the number and leaves items with the
+    same number in the order they had (it never compares strings) -/
+example : sortData { exShape with keys := [(0, .uint), (1, .str)] }
+      [[some 2, some 1, none, none, none], [some 1, some 5, none, none, none], [some 1, some 3, none, none, none]] =
+      [[some 1, some 5, none, none, none], [some 1, some 3, none, none, none], [some 2, some 1, none, none, none]] := by
+  decide
+
 /-! ## every registered list type (regenerated tables) -/
 
 /-- every list type of the tree under test has a shape the engine theorems apply to: identifier fields exist
@@ -511,6 +666,19 @@ theorem c02_repaired_selectormatch_decides_equality (t : ListType) (ht : t ∈ G
 theorem c02_selectormatch_members_agree (c : UCfg) (sh : Shape) (sel it : Item) (hl : it.length ≤ sh.n)
     (hd : selDefined sh sel it = true) : selectorMatchF c sh sel it = selectorMatch sh sel it :=
   selectorMatchF_defined c sh sel it hl hd
+
+/-- **the kinds of identifier that occur**: every list type of the tree has no identifier, 1–3 numeric parts, a
+    number followed by a string, or a single address — exactly the kinds for which `c02_hashkey_*` prove the hash
+    text injective on complete identifiers; in particular no string part is followed by another part
+    (`c02_hashkey_string_first_would_collide`) -/
+theorem c02_key_kinds : ∀ t ∈ Generated.listTypes,
+    t.shape.keys.map (·.2) ∈ [[], [.uint], [.uint, .uint], [.uint, .uint, .uint], [.uint, .str], [.struct]] := by
+  decide +kernel
+
+/-- the address-typed identifiers are the three address types whose `String()` the model renders -/
+theorem c02_struct_key_types : ∀ t ∈ Generated.listTypes, t.shape.keys.map (·.2) = [.struct] →
+    t.keyTypes ∈ [["DeviceAddressType"], ["EntityAddressType"], ["FeatureAddressType"]] := by
+  decide +kernel
 
 /-- the combined form of DESIGN §8: every list type has a good shape and — unless the translator lists its
     method as failing (`c02_wiring_failing_exact` keeps that list honest) — a well-wired `UpdateList` -/
